@@ -4343,6 +4343,9 @@ func classSweep(c *an.Ctx, prop string) {
 	add("single-put", sharedSinglePut(c, rule, pk...))
 	add("loop-errors", sharedLoopErrorNotDropped(c, rule, pk...))
 	add("opt-ttl", sharedTTLStoreSkipsOPT(c, rule, pk...))
+	add("hoisted-elements", sharedNoHoistedElement(c, rule, pk...))
+	add("cmp-or", sharedCmpOrOrder(c, rule, pk...))
+	add("ctx-constructors", sharedContextConstructors(c, rule, pk...))
 	n := 0
 	for _, p := range pk {
 		n += sharedNoShallowCopy(c, rule, p, "github.com/miekg/dns.Msg")
@@ -5177,21 +5180,7 @@ func sharedPutOfOwnedField(c *an.Ctx, rule string, prefixes ...string) (examined
 				v = mi.X
 			}
 			// which field of which longer-lived object does the value come from?
-			var fa *ssa.FieldAddr
-			switch x := v.(type) {
-			case *ssa.FieldAddr:
-				fa = x
-			case *ssa.UnOp:
-				if x.Op == token.MUL {
-					fa, _ = x.X.(*ssa.FieldAddr)
-				}
-			case *ssa.Alloc:
-				if st := an.SingleStore(x); st != nil {
-					if ld, ok := st.Val.(*ssa.UnOp); ok && ld.Op == token.MUL {
-						fa, _ = ld.X.(*ssa.FieldAddr)
-					}
-				}
-			}
+			fa := putSourceField(v)
 			if fa == nil {
 				continue
 			}
@@ -5249,4 +5238,754 @@ func sharedPutOfOwnedField(c *an.Ctx, rule string, prefixes ...string) (examined
 		}
 	}
 	return examined
+}
+
+// sharedHandOnEvery is the rule for a receive-convert-collect loop: once the
+// conversion of a received item has succeeded, the item is handed on.  From the
+// success edge of the conversion call, the next receive (or the end of the
+// function) is reachable only through a store to each of the collecting
+// fields; a path that skips one drops an item the sender will not send again.
+func sharedHandOnEvery(c *an.Ctx, rule, fnKey, convertSuffix string, fields ...string) {
+	fn := c.Fn(fnKey)
+	key := fnKey + " hands on every item that converts"
+	if fn == nil {
+		c.Und(rule, key, token.NoPos, "anchor not found")
+		return
+	}
+	c.Analysed(fnKey)
+	var conv *ssa.Call
+	for _, call := range an.Calls(fn) {
+		if cl, ok := call.(*ssa.Call); ok && strings.HasSuffix(an.CalleeName(call), convertSuffix) {
+			conv = cl
+		}
+	}
+	if conv == nil {
+		c.Und(rule, key, fn.Pos(), "no call of %s found", convertSuffix)
+		return
+	}
+	// the success edge: the negation of an edge taken exactly when the conversion's error is non-nil
+	var start *ssa.BasicBlock
+	for _, b := range fn.Blocks {
+		ifi, ok := b.Instrs[len(b.Instrs)-1].(*ssa.If)
+		if !ok {
+			continue
+		}
+		for _, br := range []bool{true, false} {
+			if an.ErrNonNilEdgeOf(an.CondEdge{If: ifi, Branch: br}, conv) {
+				start = an.CondEdge{If: ifi, Branch: !br}.To()
+			}
+		}
+	}
+	if start == nil {
+		c.Und(rule, key, conv.Pos(), "the error of %s is not tested", convertSuffix)
+		return
+	}
+	var missing []string
+	for _, f := range fields {
+		isStore := func(in ssa.Instruction) bool {
+			st, ok := in.(*ssa.Store)
+			if !ok {
+				return false
+			}
+			_, field, _, ok := an.FieldOf(st.Addr)
+			return ok && field == f
+		}
+		// search from the success edge for the conversion call (next iteration) or a return, not passing a store
+		seen := map[*ssa.BasicBlock]bool{}
+		work := []*ssa.BasicBlock{start}
+		skipped := false
+		for len(work) > 0 && !skipped {
+			b := work[len(work)-1]
+			work = work[:len(work)-1]
+			if seen[b] {
+				continue
+			}
+			seen[b] = true
+			blocked := false
+			for _, in := range b.Instrs {
+				if isStore(in) {
+					blocked = true
+					break
+				}
+				if in == ssa.Instruction(conv) {
+					skipped = true
+					break
+				}
+				if _, isRet := in.(*ssa.Return); isRet {
+					skipped = true
+					break
+				}
+			}
+			if !blocked && !skipped {
+				work = append(work, b.Succs...)
+			}
+		}
+		if skipped {
+			missing = append(missing, f)
+		}
+	}
+	c.Check(len(missing) == 0, rule, key, conv.Pos(),
+		fmt.Sprintf("after a successful %s every path to the next item or to the end stores to %s", convertSuffix, strings.Join(fields, " and ")),
+		fmt.Sprintf("after a successful %s some path reaches the next item (or the end) without storing to %s: a converted item is dropped, and the sender, whose sync point still advances, does not send it again",
+			convertSuffix, strings.Join(missing, ", ")))
+}
+
+// sharedNoSilentSkip is the rule for element-wise conversion loops (a range
+// loop that appends to a result): an element is left out only after it has been
+// reported (error collector, logger) or because a conversion of it failed (an
+// error or ok result of a call is tested on the skipping path).  A path from
+// the loop header back to it that neither appends nor reports nor tests such a
+// result drops valid elements silently: a /0 prefix, a deleted profile, the
+// last device of a profile.  Returns the number of loops examined.
+func sharedNoSilentSkip(c *an.Ctx, rule string, prefixes ...string) (examined int) {
+	isBuiltinAppend := func(in ssa.Instruction) bool {
+		call, ok := in.(*ssa.Call)
+		if !ok {
+			return false
+		}
+		b, ok := call.Call.Value.(*ssa.Builtin)
+		return ok && b.Name() == "append"
+	}
+	isReport := func(in ssa.Instruction) bool {
+		call, ok := in.(ssa.CallInstruction)
+		if !ok {
+			return false
+		}
+		n := an.CalleeName(call)
+		return strings.Contains(n, "errcoll.") || strings.Contains(n, "slog.Logger).") || strings.Contains(n, "optslog.") ||
+			strings.Contains(n, ".Collect") || strings.HasSuffix(n, "log.Debug") || strings.HasSuffix(n, "log.Info") || strings.HasSuffix(n, "log.Error")
+	}
+	for _, fn := range c.AllFns {
+		if fn.Blocks == nil || c.IsTestFile(fn.Pos()) || !c.Prog.InRepo(fn) || !hasAnyPrefix(an.FnKey(fn), prefixes) || strings.Contains(c.Pos(fn.Pos()), ".pb.go:") {
+			continue
+		}
+		for _, l := range naturalLoops(fn) {
+			if l.done == nil {
+				continue
+			}
+			has := false
+			for b := range l.blocks {
+				for _, in := range b.Instrs {
+					if isBuiltinAppend(in) {
+						has = true
+					}
+				}
+			}
+			if !has {
+				continue
+			}
+			examined++
+			k := an.FnKey(fn)
+			c.Analysed(k)
+			// the body entry: the successor of the header that stays in the loop
+			var entry *ssa.BasicBlock
+			for _, s := range l.header.Succs {
+				if l.blocks[s] && s != l.header {
+					entry = s
+				}
+			}
+			if entry == nil {
+				continue
+			}
+			// a block excuses the skip when it appends, reports, or is entered through a test of a call's error / ok result
+			excused := func(b *ssa.BasicBlock) bool {
+				for _, in := range b.Instrs {
+					if isBuiltinAppend(in) || isReport(in) {
+						return true
+					}
+				}
+				return false
+			}
+			testsCallResult := func(b *ssa.BasicBlock) bool {
+				ifi, ok := b.Instrs[len(b.Instrs)-1].(*ssa.If)
+				if !ok {
+					return false
+				}
+				found := false
+				var visit func(v ssa.Value, d int)
+				visit = func(v ssa.Value, d int) {
+					if d > 4 || found {
+						return
+					}
+					switch x := v.(type) {
+					case *ssa.Extract:
+						if _, isCall := x.Tuple.(*ssa.Call); isCall && x.Index > 0 {
+							found = true
+						}
+						if _, isTA := x.Tuple.(*ssa.TypeAssert); isTA {
+							found = true
+						}
+						if _, isLookup := x.Tuple.(*ssa.Lookup); isLookup {
+							found = true
+						}
+					case *ssa.Call:
+						found = found || isErrorType(x.Type()) || isBasicKind(x.Type(), types.Bool)
+					case *ssa.BinOp:
+						visit(x.X, d+1)
+						visit(x.Y, d+1)
+					case *ssa.UnOp:
+						visit(x.X, d+1)
+					case *ssa.Phi:
+						for _, e := range x.Edges {
+							visit(e, d+1)
+						}
+					}
+				}
+				visit(ifi.Cond, 0)
+				return found
+			}
+			seen := map[*ssa.BasicBlock]bool{}
+			var path []*ssa.BasicBlock
+			var silent []*ssa.BasicBlock
+			var dfs func(b *ssa.BasicBlock, tested bool)
+			dfs = func(b *ssa.BasicBlock, tested bool) {
+				if silent != nil || !l.blocks[b] {
+					return
+				}
+				if b == l.header {
+					if !tested {
+						silent = append([]*ssa.BasicBlock{}, path...)
+					}
+					return
+				}
+				if seen[b] || excused(b) {
+					return
+				}
+				seen[b] = true
+				path = append(path, b)
+				t := tested || testsCallResult(b)
+				for _, s := range b.Succs {
+					dfs(s, t)
+				}
+				path = path[:len(path)-1]
+			}
+			dfs(entry, false)
+			key := fmt.Sprintf("%s: the loop over %s leaves no element out silently", k, loopSubject(l))
+			where := ""
+			if len(silent) > 0 {
+				last := silent[len(silent)-1]
+				where = c.Pos(last.Instrs[len(last.Instrs)-1].Pos())
+				for _, in := range last.Instrs {
+					if in.Pos() != token.NoPos {
+						where = c.Pos(in.Pos())
+					}
+				}
+			}
+			c.Check(silent == nil, rule, key, l.header.Instrs[0].Pos(),
+				"every path through the loop body appends, reports the element, or follows a test of a conversion result",
+				"a path through the body (ending near "+where+") reaches the next element without appending, reporting, or testing a conversion result: elements that a plain comparison singles out (a zero prefix length, a flag) vanish from the result")
+		}
+	}
+	return examined
+}
+
+// sharedPrefixLengthVerbatim: where subnets cross a representation boundary
+// (backend protobuf -> netip.Prefix -> file-cache protobuf -> netip.Prefix) the
+// prefix length is carried over as it is: the length operand of
+// netip.PrefixFrom is a plain conversion of the message's Prefix field, and the
+// Prefix field of a message is a plain conversion of netip.Prefix.Bits.  A
+// length that is chosen by a comparison (0 replaced by the address width)
+// changes which clients a subnet covers.  Returns the number of operands examined.
+func sharedPrefixLengthVerbatim(c *an.Ctx, rule string, prefixes ...string) (examined int) {
+	strip := func(v ssa.Value) ssa.Value {
+		for {
+			switch x := v.(type) {
+			case *ssa.Convert:
+				v = x.X
+			case *ssa.ChangeType:
+				v = x.X
+			default:
+				return v
+			}
+		}
+	}
+	for _, fn := range c.AllFns {
+		if fn.Blocks == nil || c.IsTestFile(fn.Pos()) || !c.Prog.InRepo(fn) || !hasAnyPrefix(an.FnKey(fn), prefixes) || strings.Contains(c.Pos(fn.Pos()), ".pb.go:") {
+			continue
+		}
+		k := an.FnKey(fn)
+		n := 0
+		bad := ""
+		an.Instrs(fn, func(in ssa.Instruction) {
+			switch x := in.(type) {
+			case *ssa.Call:
+				if an.CalleeName(x) != "net/netip.PrefixFrom" || len(x.Call.Args) != 2 {
+					return
+				}
+				src := strip(x.Call.Args[1])
+				// only conversions of messages: the length operand mentions a Prefix field somewhere
+				mentions := false
+				w := &an.Walker{P: c.Prog, NoFieldJoin: true, Opaque: func(*ssa.Function) bool { return true },
+					Visit: func(v ssa.Value) bool {
+						if ld, ok := v.(*ssa.UnOp); ok && ld.Op == token.MUL {
+							if _, f, _, ok := an.FieldOf(ld.X); ok && f == "Prefix" {
+								mentions = true
+								return true
+							}
+						}
+						return false
+					}}
+				w.Walk(x.Call.Args[1])
+				if !mentions {
+					return
+				}
+				n++
+				ld, ok := src.(*ssa.UnOp)
+				if ok && ld.Op == token.MUL {
+					if _, f, _, ok := an.FieldOf(ld.X); ok && f == "Prefix" {
+						return
+					}
+				}
+				bad = "the length given to netip.PrefixFrom at " + c.Pos(x.Pos()) + " is computed (" + src.String() + "), not the message's Prefix field as it is"
+			case *ssa.Store:
+				typ, f, _, ok := an.FieldOf(x.Addr)
+				if !ok || f != "Prefix" || !strings.HasSuffix(typ, ".CidrRange") {
+					return
+				}
+				n++
+				src := strip(x.Val)
+				if call, ok := src.(*ssa.Call); ok && strings.HasSuffix(an.CalleeName(call), "netip.Prefix).Bits") {
+					return
+				}
+				if ld, ok := src.(*ssa.UnOp); ok && ld.Op == token.MUL {
+					if _, f2, _, ok := an.FieldOf(ld.X); ok && f2 == "Prefix" {
+						return
+					}
+				}
+				bad = "the Prefix field stored at " + c.Pos(x.Pos()) + " is computed (" + src.String() + "), not netip.Prefix.Bits as it is"
+			}
+		})
+		if n == 0 {
+			continue
+		}
+		examined += n
+		c.Analysed(k)
+		c.Check(bad == "", rule, k+" carries prefix lengths over unchanged", fn.Pos(), fmt.Sprintf("%d prefix-length operands, each a plain conversion", n),
+			bad+": a subnet covers other clients after the conversion than before")
+	}
+	return examined
+}
+
+// sharedCloneOwnsItsParts: what a clone function puts into its result is never
+// an object of the source: every pointer, interface, slice or map value that is
+// appended to or stored into the clone is walked back, and reaching a parameter
+// of the function other than the receiver without passing a call (a pool Get, a
+// copy helper, append into the clone's own storage) means the clone and its
+// source share that object; disposing of one recycles a part of the other.
+// Returns the number of stored values examined.
+func sharedCloneOwnsItsParts(c *an.Ctx, rule string, match func(fnKey string) bool) (examined int) {
+	refLike := func(t types.Type) bool {
+		switch t.Underlying().(type) {
+		case *types.Pointer, *types.Interface, *types.Slice, *types.Map:
+			return true
+		}
+		return false
+	}
+	for _, fn := range c.AllFns {
+		if fn.Blocks == nil || c.IsTestFile(fn.Pos()) || !c.Prog.InRepo(fn) || !match(an.FnKey(fn)) {
+			continue
+		}
+		k := an.FnKey(fn)
+		src := map[ssa.Value]bool{}
+		for i, p := range fn.Params {
+			if i == 0 && fn.Signature.Recv() != nil {
+				continue
+			}
+			if refLike(p.Type()) {
+				src[p] = true
+			}
+		}
+		if len(src) == 0 {
+			continue
+		}
+		n := 0
+		var shared []string
+		check := func(v ssa.Value, at token.Pos, what string) {
+			if !refLike(v.Type()) {
+				return
+			}
+			if _, isConst := v.(*ssa.Const); isConst {
+				return
+			}
+			n++
+			hit := false
+			w := &an.Walker{P: c.Prog, NoFieldJoin: true, Opaque: func(*ssa.Function) bool { return true },
+				Visit: func(u ssa.Value) bool {
+					if src[u] {
+						hit = true
+						return true
+					}
+					if ld, ok := u.(*ssa.UnOp); ok && ld.Op == token.MUL {
+						// a load from inside the source object (a field, an element): follow the address chain to its root
+						for a := ld.X; ; {
+							switch x := a.(type) {
+							case *ssa.FieldAddr:
+								a = x.X
+								continue
+							case *ssa.IndexAddr:
+								a = x.X
+								continue
+							case *ssa.UnOp:
+								if x.Op == token.MUL {
+									a = x.X
+									continue
+								}
+							}
+							if src[a] {
+								hit = true
+								return true
+							}
+							break
+						}
+					}
+					_, isParam := u.(*ssa.Parameter)
+					return isParam
+				}}
+			// a field load stays inside the source object: follow the address chain by hand
+			var follow func(u ssa.Value, d int)
+			follow = func(u ssa.Value, d int) {
+				if d > 12 || hit {
+					return
+				}
+				switch x := u.(type) {
+				case *ssa.UnOp:
+					if x.Op == token.MUL {
+						follow(x.X, d+1)
+						return
+					}
+				case *ssa.FieldAddr:
+					follow(x.X, d+1)
+					return
+				case *ssa.IndexAddr:
+					follow(x.X, d+1)
+					return
+				case *ssa.Alloc:
+					for _, st := range an.Stores(x) {
+						follow(st.Val, d+1)
+					}
+					return
+				case *ssa.Extract:
+					if nx, ok := x.Tuple.(*ssa.Next); ok {
+						if rg, ok := nx.Iter.(*ssa.Range); ok {
+							follow(rg.X, d+1)
+						}
+						return
+					}
+				}
+				w.Walk(u)
+			}
+			follow(v, 0)
+			if hit {
+				shared = append(shared, what+" at "+c.Pos(at))
+			}
+		}
+		an.Instrs(fn, func(in ssa.Instruction) {
+			switch x := in.(type) {
+			case *ssa.Call:
+				if b, ok := x.Call.Value.(*ssa.Builtin); ok && b.Name() == "append" && len(x.Call.Args) == 2 {
+					// the appended elements: a slice literal built in place
+					if sl, ok := x.Call.Args[1].(*ssa.Slice); ok {
+						if al, ok := sl.X.(*ssa.Alloc); ok {
+							for _, r := range *al.Referrers() {
+								if ia, ok := r.(*ssa.IndexAddr); ok {
+									for _, st := range an.Stores(ia) {
+										check(st.Val, x.Pos(), "an appended element")
+									}
+								}
+							}
+						}
+					}
+				}
+			case *ssa.Store:
+				if _, f, _, ok := an.FieldOf(x.Addr); ok {
+					if _, isParamField := an.Unwrap(x.Val).(*ssa.Parameter); isParamField {
+						return
+					}
+					check(x.Val, x.Pos(), "field "+f)
+				}
+			}
+		})
+		if n == 0 {
+			continue
+		}
+		examined += n
+		c.Analysed(k)
+		sort.Strings(shared)
+		c.Check(len(shared) == 0, rule, k+" shares no object with its source", fn.Pos(),
+			fmt.Sprintf("%d reference values put into the clone, none taken from the source as it is", n),
+			"the clone holds an object of its source ("+strings.Join(shared, "; ")+"): when either message is disposed of, the object returns to its pool and the other message's option is overwritten by a later answer")
+	}
+	return examined
+}
+
+// appendedElems returns the values of the elements that a builtin append call
+// adds when they are given one by one (append(xs, a, b)); nil for append(xs, ys...).
+func appendedElems(call *ssa.Call) (vs []ssa.Value) {
+	b, ok := call.Call.Value.(*ssa.Builtin)
+	if !ok || b.Name() != "append" || len(call.Call.Args) != 2 {
+		return nil
+	}
+	sl, ok := call.Call.Args[1].(*ssa.Slice)
+	if !ok {
+		return nil
+	}
+	al, ok := sl.X.(*ssa.Alloc)
+	if !ok || al.Referrers() == nil {
+		return nil
+	}
+	for _, r := range *al.Referrers() {
+		if ia, ok := r.(*ssa.IndexAddr); ok {
+			for _, st := range an.Stores(ia) {
+				vs = append(vs, st.Val)
+			}
+		}
+	}
+	return vs
+}
+
+// sharedNoHoistedElement: a loop that collects pointers must collect a pointer
+// to a different object in every iteration.  When the object is declared
+// outside the loop and only filled in inside it, every collected element is
+// the same object and holds the values of the last iteration (all upstreams are
+// the last upstream, all listeners the last listener).  Returns the number of
+// pointer elements collected inside loops examined.
+func sharedNoHoistedElement(c *an.Ctx, rule string, prefixes ...string) (examined int) {
+	for _, fn := range c.AllFns {
+		if fn.Blocks == nil || c.IsTestFile(fn.Pos()) || !c.Prog.InRepo(fn) || !hasAnyPrefix(an.FnKey(fn), prefixes) || strings.Contains(c.Pos(fn.Pos()), ".pb.go:") {
+			continue
+		}
+		loops := naturalLoops(fn)
+		if len(loops) == 0 {
+			continue
+		}
+		k := an.FnKey(fn)
+		n := 0
+		bad := ""
+		inner := func(b *ssa.BasicBlock) (loop *loopInfo) {
+			for _, l := range loops {
+				if l.blocks[b] && (loop == nil || len(l.blocks) < len(loop.blocks)) {
+					loop = l
+				}
+			}
+			return loop
+		}
+		consider := func(v ssa.Value, at ssa.Instruction) {
+			if mi, ok := v.(*ssa.MakeInterface); ok {
+				v = mi.X
+			}
+			al, ok := v.(*ssa.Alloc)
+			if !ok || !al.Heap {
+				return
+			}
+			loop := inner(at.Block())
+			if loop == nil {
+				return
+			}
+			n++
+			if !loop.blocks[al.Block()] {
+				bad = fmt.Sprintf("the object collected at %s (%s) is allocated outside the loop, at %s", c.Pos(at.Pos()), al.Comment, c.Pos(al.Pos()))
+			}
+		}
+		an.Instrs(fn, func(in ssa.Instruction) {
+			switch x := in.(type) {
+			case *ssa.Call:
+				for _, v := range appendedElems(x) {
+					consider(v, x)
+				}
+			case *ssa.MapUpdate:
+				consider(x.Value, x)
+			}
+		})
+		if n == 0 {
+			continue
+		}
+		examined += n
+		c.Analysed(k)
+		c.Check(bad == "", rule, k+" collects a different object in every iteration", fn.Pos(),
+			fmt.Sprintf("%d pointers collected inside loops, each to an object of its own iteration", n),
+			bad+": every collected element is that one object, with the values of the last iteration")
+	}
+	return examined
+}
+
+// sharedCmpOrOrder: cmp.Or returns its first non-zero operand, so a default
+// goes last.  An operand in front of the last one that can never be zero (a
+// non-zero constant, the result of a constructor that always returns a fresh
+// object) makes every later operand dead: the caller's setting is ignored.
+// Returns the number of cmp.Or calls examined.
+func sharedCmpOrOrder(c *an.Ctx, rule string, prefixes ...string) (examined int) {
+	var neverZero func(v ssa.Value, d int) bool
+	neverZero = func(v ssa.Value, d int) bool {
+		if d > 3 {
+			return false
+		}
+		switch x := v.(type) {
+		case *ssa.MakeInterface:
+			return neverZero(x.X, d+1)
+		case *ssa.ChangeInterface:
+			return neverZero(x.X, d+1)
+		case *ssa.Alloc:
+			return true
+		case *ssa.Const:
+			if x.Value == nil {
+				return false // nil / zero value
+			}
+			switch x.Value.Kind() {
+			case constant.Int, constant.Float:
+				return constant.Sign(x.Value) != 0
+			case constant.String:
+				return constant.StringVal(x.Value) != ""
+			case constant.Bool:
+				return constant.BoolVal(x.Value)
+			}
+			return false
+		case *ssa.Call:
+			callee := an.StaticCallee(x)
+			if callee == nil || callee.Blocks == nil {
+				return false
+			}
+			rs := an.Returns(callee)
+			if len(rs) == 0 {
+				return false
+			}
+			for _, r := range rs {
+				if len(r.Results) != 1 || !neverZero(r.Results[0], d+1) {
+					return false
+				}
+			}
+			return true
+		}
+		return false
+	}
+	for _, fn := range c.AllFns {
+		if fn.Blocks == nil || c.IsTestFile(fn.Pos()) || !c.Prog.InRepo(fn) || !hasAnyPrefix(an.FnKey(fn), prefixes) {
+			continue
+		}
+		for _, call := range an.Calls(fn) {
+			name := an.CalleeName(call)
+			if !strings.HasPrefix(name, "cmp.Or") {
+				continue
+			}
+			// variadic: the operands are the elements of a slice literal
+			args := call.Common().Args
+			if len(args) != 1 {
+				continue
+			}
+			sl, ok := args[0].(*ssa.Slice)
+			if !ok {
+				continue
+			}
+			al, ok := sl.X.(*ssa.Alloc)
+			if !ok || al.Referrers() == nil {
+				continue
+			}
+			type el struct {
+				i int64
+				v ssa.Value
+			}
+			var els []el
+			for _, r := range *al.Referrers() {
+				if ia, ok := r.(*ssa.IndexAddr); ok {
+					if i, ok := an.ConstInt(ia.Index); ok {
+						for _, st := range an.Stores(ia) {
+							els = append(els, el{i, st.Val})
+						}
+					}
+				}
+			}
+			if len(els) < 2 {
+				continue
+			}
+			examined++
+			c.Analysed(an.FnKey(fn))
+			last := int64(0)
+			for _, e := range els {
+				last = max(last, e.i)
+			}
+			bad := ""
+			for _, e := range els {
+				if e.i < last && neverZero(e.v, 0) {
+					bad = fmt.Sprintf("operand %d of cmp.Or at %s can never be zero, so the operands after it are never used", e.i+1, c.Pos(call.Pos()))
+				}
+			}
+			key := fmt.Sprintf("%s: cmp.Or at line-independent site %d puts defaults last", an.FnKey(fn), siteIndex(fn, call))
+			c.Check(bad == "", rule, key, call.Pos(), fmt.Sprintf("%d operands; none before the last is a constant or a constructor result", len(els)),
+				bad+": the value the caller supplied is replaced by the default")
+		}
+	}
+	return examined
+}
+
+// siteIndex numbers the call instructions of fn with the same callee name as
+// call, in block order, so that an obligation key does not depend on line numbers.
+func siteIndex(fn *ssa.Function, call ssa.CallInstruction) (n int) {
+	name := an.CalleeName(call)
+	for _, cl := range an.Calls(fn) {
+		if an.CalleeName(cl) == name {
+			n++
+			if cl == call {
+				return n
+			}
+		}
+	}
+	return 0
+}
+
+// sharedContextConstructors: a function that hands out a fresh context per call
+// (results: context.Context and context.CancelFunc) derives every context from
+// the same parent.  A constructor closure that assigns to a captured variable
+// chains each context to the previous one: the first deadline is inherited by
+// every later context, and after it has passed every operation started under
+// such a context fails at once.  Returns the number of constructors examined.
+func sharedContextConstructors(c *an.Ctx, rule string, prefixes ...string) (examined int) {
+	for _, fn := range c.AllFns {
+		if fn.Blocks == nil || c.IsTestFile(fn.Pos()) || !c.Prog.InRepo(fn) || !hasAnyPrefix(an.FnKey(fn), prefixes) {
+			continue
+		}
+		res := fn.Signature.Results()
+		if res.Len() != 2 || an.TypeName(res.At(0).Type()) != "context.Context" || an.TypeName(res.At(1).Type()) != "context.CancelFunc" {
+			continue
+		}
+		if len(fn.FreeVars) == 0 {
+			continue
+		}
+		examined++
+		c.Analysed(an.FnKey(fn))
+		bad := ""
+		an.Instrs(fn, func(in ssa.Instruction) {
+			if st, ok := in.(*ssa.Store); ok {
+				if fv, ok := st.Addr.(*ssa.FreeVar); ok {
+					bad = fmt.Sprintf("the captured variable %s is assigned at %s", fv.Name(), c.Pos(st.Pos()))
+				}
+			}
+		})
+		c.Check(bad == "", rule, an.FnKey(fn)+" derives every context from the same parent", fn.Pos(), "the constructor closure does not assign to what it captured",
+			bad+": each new context becomes a child of the previous one and inherits its deadline")
+	}
+	return examined
+}
+
+// putSourceField returns the field that a value handed to a pool's Put is
+// held in: the address of the field itself, the pointer or slice loaded from
+// it, or a local copy of that load (body := s.readBody; Put(&body)); nil when
+// the value does not come from a field.
+func putSourceField(v ssa.Value) (fa *ssa.FieldAddr) {
+	if mi, ok := v.(*ssa.MakeInterface); ok {
+		v = mi.X
+	}
+	switch x := v.(type) {
+	case *ssa.FieldAddr:
+		return x
+	case *ssa.UnOp:
+		if x.Op == token.MUL {
+			fa, _ = x.X.(*ssa.FieldAddr)
+		}
+	case *ssa.Alloc:
+		if st := an.SingleStore(x); st != nil {
+			if ld, ok := st.Val.(*ssa.UnOp); ok && ld.Op == token.MUL {
+				fa, _ = ld.X.(*ssa.FieldAddr)
+			}
+		}
+	}
+	return fa
 }
